@@ -33,7 +33,7 @@ def failing_op(rng):
     return [['scan', ['raise_if_mod', k, r], 0, kind == 'scan_reduce', None]], (k, r), 'scan'
 
 
-def cases(tier, rng):
+def _cases(tier, rng):
     yield {'kind': 'mux', 'term': [['map', ['raise_if_mod', 2, 0]], ['ignore'], ['count', False]], 'items': [1, 2, 3]}
     yield {'kind': 'mux', 'term': [['map', ['raise_if_mod', 2, 0]], ['route'], ['to_list']], 'items': [1, 2, 3, 4]}
     yield {'kind': 'mux', 'term': [['scan', ['raise_if_mod', 3, 0], 0, False, None], ['err_map', -1], ['to_list']], 'items': [1, 3, 2]}
@@ -101,7 +101,7 @@ def _strip(term):
     return term
 
 
-def oracle(case, r):
+def _oracle(case, r):
     if 'harness_exc' in r:
         return 'real code raised: ' + r['harness_exc']
     if r.get('raised') or 'fail' not in case:
@@ -203,3 +203,14 @@ def tags(case, r):
 
 def violation_class(case, text):
     return text.split(':')[0][:40]
+
+
+def cases(tier, rng):
+    """every case of `_cases`, and for a fraction of the mux/plain ones the same case run as the SECOND subscription of
+    its pipeline object (after an earlier subscription that completed, failed or was disposed)"""
+    pr = rng.sub('resubscription')
+    return muxprop.with_preludes(_cases(tier, rng), pr)
+
+
+def oracle(case, r):
+    return muxprop.prelude_violation(case, r) or _oracle(case, r)
